@@ -9,6 +9,7 @@
 
 #include "printf_impl.h"
 #include <ctype.h>
+#include <float.h>
 #include <igris/dprint.h>
 #include <igris/math/defs.h>
 #include <igris/util/types_extension.h>
@@ -63,8 +64,22 @@
 /**
  * Options for print_f
  */
+#ifdef LONG_DOUBLE
+#define PRINT_F_MAX_10_EXP LDBL_MAX_10_EXP
+#define PRINT_F_MIN_10_EXP LDBL_MIN_10_EXP
+#define PRINT_F_DIG LDBL_DIG
+#else
+#define PRINT_F_MAX_10_EXP DBL_MAX_10_EXP
+#define PRINT_F_MIN_10_EXP DBL_MIN_10_EXP
+#define PRINT_F_DIG DBL_DIG
+#endif
+/* most fraction digits ever generated (enough for the smallest denormal); a
+ * larger precision is filled up with zeros */
+#define PRINT_F_FRAC_MAX (PRINT_F_DIG - PRINT_F_MIN_10_EXP + 20)
+/* size of buffer: all integer digits of the largest value, the point, the
+ * fraction digits, the exponent (letter, sign, digits) and two terminators */
 #define PRINT_F_BUFF_SZ                                                        \
-    65 /* size of buffer for long double -- FIXME this may not be enough */
+    (PRINT_F_MAX_10_EXP + 1 + 1 + PRINT_F_FRAC_MAX + 8 + 2)
 //#define PRINT_F_PREC_SHORTENED 4 /* shortened precision for real numbers */
 #define PRINT_F_PREC_DEFAULT 6 /* default precision for real numbers */
 
@@ -294,7 +309,9 @@ static int print_f(void (*printchar_handler)(void *d, int c),
     }
     fp = with_exp ? fp : MODF(r, &ip);
     precision -= (int)(is_shortened ? ceill(LOG10(ip)) + (ip != 0.0L) : 0);
-    for (; (sign_count < precision) && (FMOD(fp, 1.0L) != 0.0L); ++sign_count)
+    for (; (sign_count < precision) && (sign_count < PRINT_F_FRAC_MAX) &&
+           (FMOD(fp, 1.0L) != 0.0L);
+         ++sign_count)
         fp *= base;
     fp = roundl(fp);
 
